@@ -106,6 +106,9 @@ class World:
             self.nac_last = copy.deepcopy(nacp0)
             ph.nac_params = nacp0
         self.handed_in = []  # (label, array, checksum)
+        self.modified_by = {}  # id(array) -> name of the operation after which a handed-in array was first found changed
+        self.handed_out = []  # [array the object handed out (no copy), checksum, label]
+        self.handed_out_rewritten = []  # (label, operation) - a REPLACING operation wrote into an array handed out earlier
         self.log = []
 
     def model(self):
@@ -116,7 +119,31 @@ class World:
         self.handed_in.append((label, arr, zlib.crc32(np.ascontiguousarray(arr).tobytes())))
         return arr
 
+    INPLACE = ("symmetrize", "symmetrize_sg", "cutoff", "fc_same_object")  # operations documented to work on the force constants in place
+
     def apply(self, op):
+        ev = self._apply(op)
+        name = OPS[op]
+        # which operation touched what the caller holds: arrays handed in ...
+        for label, arr, crc in self.handed_in:
+            if id(arr) not in self.modified_by and zlib.crc32(np.ascontiguousarray(arr).tobytes()) != crc:
+                self.modified_by[id(arr)] = name
+        # ... and arrays handed out: the documented zero-copy getter means in-place operations show through (known), but an operation that
+        # REPLACES the force constants (set, produce) must bind new storage instead of writing into what an earlier caller still holds
+        keep = []
+        for arr, crc, label in self.handed_out:
+            if zlib.crc32(np.ascontiguousarray(arr).tobytes()) != crc:
+                if name not in self.INPLACE:
+                    self.handed_out_rewritten.append((label, name))
+            else:
+                keep.append([arr, crc, label])
+        self.handed_out = keep
+        if self.rng.integers(3) == 0 and self.ph.force_constants is not None:
+            a_ = self.ph.force_constants
+            self.handed_out.append([a_, zlib.crc32(np.ascontiguousarray(a_).tobytes()), "force_constants handed out after '%s'" % name])
+        return ev
+
+    def _apply(self, op):
         ph = self.ph
         name = OPS[op]
         ev = {"op": name}
@@ -345,8 +372,13 @@ def run_case(c):
             for label, arr, crc in w.handed_in:
                 if zlib.crc32(np.ascontiguousarray(arr).tobytes()) != crc:
                     later = names
-                    bad("caller_array_modified", "array handed in as %s was modified by a later operation in history %s" % (label, names), handed_in=label, ops=names,
-                        fc_copy_avoidance=bool(label.startswith("force_constants")))
+                    by = w.modified_by.get(id(arr))
+                    bad("caller_array_modified", "array handed in as %s was modified by operation '%s' in history %s" % (label, by, names), handed_in=label, ops=names,
+                        fc_copy_avoidance=bool(label.startswith("force_constants")), modified_by=by)
+            for label, by in w.handed_out_rewritten[:2]:
+                bad("handed_out_rewritten", "%s was overwritten by the replacing operation '%s' (history %s): new force constants must get new storage" % (label, by, names),
+                    handed_out="force_constants", modified_by=by, ops=names)
+            obs["handed_out_tracked"] = obs.get("handed_out_tracked", 0) + len(w.handed_out)
             changed = bool(np.abs(np.sort(got["lam"], axis=-1) - np.sort(base["lam"], axis=-1)).max() > 1e-8 * scale or
                            np.abs(np.sort(got["lam0"]) - np.sort(base["lam0"])).max() > 1e-8 * scale)
             if changed:
@@ -376,7 +408,7 @@ def run_case(c):
         n_probe += 1
         if not np.array_equal(A, keep):
             bad("caller_array_modified", "force constants handed in (%s) were rewritten by symmetrize_force_constants()" % layout, handed_in="force_constants(%s)" % layout,
-                fc_copy_avoidance=True, probe="P1")
+                fc_copy_avoidance=True, probe="P1", modified_by="symmetrize")
         A2 = np.array(w.model() if layout == "full" else w.model()[w.p2s], dtype="double", order="C")
         keep2 = A2.copy()
         ph.force_constants = A2
@@ -384,7 +416,7 @@ def run_case(c):
         n_probe += 1
         if not np.array_equal(A2, keep2):
             bad("caller_array_modified", "force constants handed in (%s) were rewritten by set_force_constants_zero_with_radius()" % layout,
-                handed_in="force_constants(%s)" % layout, fc_copy_avoidance=True, probe="P1")
+                handed_in="force_constants(%s)" % layout, fc_copy_avoidance=True, probe="P1", modified_by="cutoff")
     # P2: handed-out force constants alias internal state
     ph.force_constants = np.array(w.model(), dtype="double", order="C")
     a0 = answers()
